@@ -290,6 +290,10 @@ PROPS["C11"]["props"].append("MassVerif.Props.C11Scan")
 PROPS["C11"]["drivers_mod"].append("MassVerif.Driver.Scan")
 PROPS["C11"]["harnesses"].append({"name": "scan", "pkg": "harness/scan", "driver": "MassVerif/Driver/Scan.lean",
                                   "quick": {"n": 150}, "thorough": {"n": 3000}, "search": {"n": 1500}, "replayable": False})
+# C10 too: a space is ready after a restart only if the progress recorded in its map B says the table is complete
+PROPS["C10"]["drivers_mod"].append("MassVerif.Driver.Scan")
+PROPS["C10"]["harnesses"].append({"name": "scan", "pkg": "harness/scan", "driver": "MassVerif/Driver/Scan.lean",
+                                  "quick": {"n": 60}, "thorough": {"n": 1500}, "search": {"n": 600}, "replayable": False})
 PROPS["C11"]["level_text"] += (" Start-up half (Props/C11Scan, Model/Scan): for every wallet, directory content and entry order the "
     "scan indexes no space twice; every indexed space comes from an entry with a plot-file name, a valid key and bit length and the "
     "wallet's ordinal for that key; whatever canonical map-B file it will serve proofs from loaded (size, code, version, key, key hash), "
